@@ -334,8 +334,15 @@ func (p *Prog) forwardTarget(f *ssa.Function) *ssa.Function {
 	}
 	var g *ssa.Function
 	if call != nil && n == 1 {
-		if cal := call.Call.StaticCallee(); cal != nil && cal.Pkg == f.Pkg && cal != f && len(call.Call.Args) >= len(f.Params) && len(f.Params) > 0 {
+		if cal := call.Call.StaticCallee(); cal != nil && cal.Pkg == f.Pkg && cal != f && len(call.Call.Args) >= len(f.Params) && (len(f.Params) > 0 || len(call.Call.Args) > 0) {
 			ok := true
+			// the appended arguments are constants (nil, zero values, literals): the canonical entry is the
+			// extended variant at a fixed setting, which is analysed for every setting
+			for _, a := range call.Call.Args[len(f.Params):] {
+				if _, isC := strip(a).(*ssa.Const); !isC && len(f.Params) == 0 {
+					ok = false
+				}
+			}
 			for i, prm := range f.Params {
 				if call.Call.Args[i] != ssa.Value(prm) {
 					ok = false
@@ -593,4 +600,57 @@ func (p *Prog) aliasMethodFuncs() {
 		funcAlias.Store(f, name)
 		p.NormNotes = append(p.NormNotes, fmt.Sprintf("function %s is treated as the method %s (same parameters, receiver first)", fk, name))
 	}
+}
+
+// purgeCaches drops the entries of the process-wide memo tables that belong to one analysed program,
+// so that a finished variant of the audit can be collected (the tables are keyed by SSA objects and
+// would otherwise keep every variant's whole program alive).
+func purgeCaches(p *Prog) {
+	if p == nil || p.Prog == nil {
+		return
+	}
+	ownFn := func(f *ssa.Function) bool { return f != nil && f.Prog == p.Prog }
+	ownVal := func(v ssa.Value) bool {
+		if v == nil {
+			return false
+		}
+		if f, ok := v.(*ssa.Function); ok {
+			return ownFn(f)
+		}
+		if g, ok := v.(*ssa.Global); ok {
+			return g.Pkg != nil && g.Pkg.Prog == p.Prog
+		}
+		return ownFn(v.Parent())
+	}
+	funcAlias.Range(func(k, _ any) bool {
+		if f, ok := k.(*ssa.Function); ok && ownFn(f) {
+			funcAlias.Delete(k)
+		}
+		return true
+	})
+	getterCache.Range(func(k, _ any) bool {
+		if f, ok := k.(*ssa.Function); ok && ownFn(f) {
+			getterCache.Delete(k)
+		}
+		return true
+	})
+	atomReg.Range(func(k, v any) bool {
+		ak, ok := k.(atomKey)
+		if ok && (ownVal(ak.x) || ownVal(v.(ssa.Value))) {
+			atomReg.Delete(k)
+		}
+		return true
+	})
+	pkgs := map[*types.Package]bool{}
+	for _, pk := range p.Pkgs {
+		if pk != nil && pk.Types != nil {
+			pkgs[pk.Types] = true
+		}
+	}
+	fieldAlias.Range(func(k, _ any) bool {
+		if v, ok := k.(*types.Var); ok && pkgs[v.Pkg()] {
+			fieldAlias.Delete(k)
+		}
+		return true
+	})
 }
